@@ -3,6 +3,7 @@ C16  Total nanoseconds <-> (seconds, nanoseconds) conversion is exact and floor-
 -/
 import TzVerif.Model.TimeZone
 import TzVerif.Spec.Calendar
+import TzVerif.Proofs.SrcEqZone
 
 namespace TzVerif.C16
 open TzVerif.Model TzVerif.Gen
@@ -98,5 +99,25 @@ theorem nanoseconds_refused (y mo d h mi s ns : Int) (hns : ns ≥ 1000000000) :
 
 /-- non-vacuity: −1 ns is (−1 s, 999 999 999 ns) -/
 example : totalNanosecondsToTimespec (-1) = .ok (-1, 999999999) := by decide
+
+/-! ### The same about the source text
+`TzVerif.Src.*` is the Rust source translated to Lean on every run (tools/rs2lean.py, DESIGN §13); the
+equalities below tie every theorem of this file, which is about the model, to the code as it is now. -/
+
+theorem translated_source_is_the_model :
+    (∀ n, Src.total_nanoseconds_to_timespec n = totalNanosecondsToTimespec n) ∧
+    (∀ s r, Src.nanoseconds_since_unix_epoch s r = nanosecondsSinceUnixEpoch s r) ∧
+    (∀ n, Src.UtcDateTime.from_total_nanoseconds n = UtcDateTime.fromTotalNanoseconds n) ∧
+    (∀ n l, Src.DateTime.from_total_nanoseconds_and_local n l = DateTime.fromTotalNanosecondsAndLocal n l) ∧
+    (∀ n (z : TimeZone), Src.DateTime.from_total_nanoseconds n z = DateTime.fromTotalNanoseconds n z) ∧
+    (∀ v, Src.try_into_i64 v = tryIntoI64 v) :=
+  ⟨Proofs.SrcEq.total_nanoseconds_to_timespec_eq, Proofs.SrcEq.nanoseconds_since_unix_epoch_eq, Proofs.SrcEq.utc_from_total_nanoseconds_eq,
+   Proofs.SrcEq.dt_from_total_nanoseconds_and_local_eq, Proofs.SrcEq.dt_from_total_nanoseconds_eq, Proofs.SrcEq.try_into_i64_eq⟩
+
+theorem split_correct_src (n : Int) :
+    Src.total_nanoseconds_to_timespec n =
+      (if i64Min ≤ n / 1000000000 ∧ n / 1000000000 ≤ i64Max then .ok (n / 1000000000, n % 1000000000)
+       else .error .outOfRange) := by
+  rw [Proofs.SrcEq.total_nanoseconds_to_timespec_eq]; exact split_correct n
 
 end TzVerif.C16
